@@ -788,6 +788,10 @@ def _is_reference_list(site: Site, root: Optional[str]) -> bool:
                 named = True
     if not named:
         return False
+    if any(isinstance(n, ast.For) and any(isinstance(x, ast.Name) and x.id == root for x in ast.walk(n.iter)) for n in ast.walk(fn)):
+        # a hand-written search of the list precedes the append; what it establishes is K13.append-once's business (the
+        # helper is evaluated there as part of the re-reference function), as it is for an append written in that function
+        return True
     guards = [n for n in ast.walk(fn) if isinstance(n, ast.Compare) and any(isinstance(op, (ast.In, ast.NotIn)) for op in n.ops)
               and any(isinstance(c, ast.Name) and c.id == root for c in n.comparators)]
     # ... or found out by the one-scan form: try: <root>.index(x) / except ValueError: <root>.append(x)
@@ -1099,6 +1103,21 @@ def persistent_state_rule(ctx, rule: str, scope_modules=("moclo.core._structured
     r = ctx.report
     n_class_slots = 0
     fixture = _memo_fixture()
+    # functions applied as class decorators (`@patch class C`, or the factory of one: `@embedding(BsaI) class C`): what they
+    # store on the class they receive is stored once, when the class is created -- the class's own attribute (entered into
+    # the class table by the folder, or the class is marked as not evaluated), not a memo written at call time
+    class_decorators: Set[int] = set()
+    for ci_ in p.all_classes():
+        if ci_.node is None:
+            continue
+        for dec in ci_.node.decorator_list:
+            target = dec.func if isinstance(dec, ast.Call) else dec
+            try:
+                g_ = p.resolve_expr(ci_.module, target)
+            except Exception:
+                g_ = None
+            if isinstance(g_, FuncInfo):
+                class_decorators.add(id(g_.node))
     for label, tree_funcs in (("repo", None), ("fixture", fixture)):
         funcs: List[Tuple[str, Optional[FuncInfo], ast.FunctionDef, Optional[str], str, object]] = []
         if tree_funcs is None:
@@ -1147,6 +1166,8 @@ def persistent_state_rule(ctx, rule: str, scope_modules=("moclo.core._structured
             for slot, node, how in slot_writes:
                 if fn.name == "__init_subclass__" and how != "keyed":
                     continue  # runs once for every class when it is created: the class's own attribute, not a memo
+                if id(fn) in class_decorators and how != "keyed" and kind == "function":
+                    continue  # a class decorator: runs once on the finished class (see above)
                 value = node.value if isinstance(node, (ast.Assign, ast.AugAssign)) else node
                 deps = _names(value)
                 inst_dep = kind != "classmethod" and first in deps and not _is_class_expr_only(value, first)
@@ -1253,6 +1274,10 @@ def persistent_state_rule(ctx, rule: str, scope_modules=("moclo.core._structured
         r.ob(rule + ".class-slot", gr.qualname + "#<none>", True, "", gr.where())
     if not getattr(r, "_fixture_fired", False):
         raise AnalysisError("the positive fixture of the persistent-state rule did not match: the rule is dead")
+    # ... and what the class-level memo of the compiled pattern *does* over a history of calls (kernel K23)
+    from .kernels4 import k23_own_pattern
+
+    ctx.guard(k23_own_pattern, ctx, rule.rsplit(".", 1)[0] + ".K23.own-pattern-history")
 
 
 def _pure_chain(e: ast.AST) -> bool:
@@ -2470,4 +2495,8 @@ def topology_gate_rule(ctx, rule: str):
                  "a freshly built circular record is handed annotations its constructor never checked (a file or record that declares "
                  "itself linear gets through): %s" % "; ".join("line %d `%s`" % b for b in bad), fi.where())
     r.analysed["functions_building_circular_records"] = n
+    if n == 0:
+        # no function keeps a freshly built circular record in a local (they return it at once): nothing can be handed to
+        # it afterwards; the rule saw its positive example above
+        r.ob(rule, "<no function binds a fresh CircularRecord to a local>", True, "", "-")
     r.floor(rule, 1)
